@@ -90,10 +90,14 @@ type base struct {
 	links   map[string]bool // planted symbolic links (kind os only): never objects
 	guard   string          // the directory that holds this root's sibling sentinels
 	dirLink bool            // the root contains "dl", a link to the sibling directory outside
-	bucket  storage.ReadWriteBucket
-	dir     string // os root
-	model   map[string]string
-	everDir map[string]bool
+	// linkedDir: in a bucket that follows links, this top-level directory of the root is a link to
+	// linkTarget, a directory elsewhere: the objects below it are objects of the bucket like any other
+	linkedDir  string
+	linkTarget string
+	bucket     storage.ReadWriteBucket
+	dir        string // os root
+	model      map[string]string
+	everDir    map[string]bool
 	// in-flight puts by base path
 	inflight map[string]*putHandle
 }
@@ -470,6 +474,18 @@ func (m *sim) newBase(i int) *base {
 			m.markDirs(b, lp)
 			m.s.Probe("planted-link")
 		}
+		if b.kind == "ossym" && m.tp.Draw("linkeddir", 3) == 2 {
+			b.linkedDir = tape.Pick(m.tp, "linkeddirname", []string{"a", "b", "c", ".cfg"})
+			b.linkTarget = filepath.Join(m.root, "linktargets", b.name)
+			if err := os.MkdirAll(b.linkTarget, 0o755); err != nil {
+				panic(err)
+			}
+			if err := os.Symlink(b.linkTarget, filepath.Join(b.dir, b.linkedDir)); err != nil {
+				panic(err)
+			}
+			b.everDir[b.linkedDir] = true
+			m.s.Probe("linked-directory-in-symlink-bucket")
+		}
 		if b.kind == "os" && m.tp.Draw("plantdirlink", 3) == 2 {
 			// a link to a DIRECTORY outside the root: this bucket does not follow links, so nothing
 			// can be created "in" it
@@ -601,7 +617,20 @@ func (m *sim) buildViews() {
 			m.views = append(m.views, mv)
 		case 2:
 			fv := &filterView{inner: inner}
-			switch m.tp.Draw("matcher", 8) {
+			switch m.tp.Draw("matcher", 11) {
+			case 8:
+				// the extension is what follows the LAST dot of the last element, dot included; "" = no dot at all
+				fv.desc, fv.pred = "ext=(none)", func(p string) bool { return extOf(p) == "" }
+				fv.r = storage.FilterReadBucket(inner.rb(), storage.MatchPathExt(""))
+			case 9:
+				// no extension has two dots, none lacks its dot: these match nothing (a suffix test would)
+				arg := tape.Pick(m.tp, "extarg", []string{".proto.bak", "proto", "o", ".one.proto"})
+				fv.desc, fv.pred = "ext="+arg, func(p string) bool { return extOf(p) == arg }
+				fv.r = storage.FilterReadBucket(inner.rb(), storage.MatchPathExt(arg))
+			case 10:
+				arg := tape.Pick(m.tp, "extarg2", []string{".bak", ".txt", ".", ".y"})
+				fv.desc, fv.pred = "not(ext="+arg+")", func(p string) bool { return extOf(p) != arg }
+				fv.r = storage.FilterReadBucket(inner.rb(), storage.MatchNot(storage.MatchPathExt(arg)))
 			case 5:
 				fv.hidden = "b/five.proto"
 				fv.desc, fv.pred = "equal(a/x/one.proto)", func(p string) bool { return p == "a/x/one.proto" }
@@ -667,6 +696,38 @@ func (m *sim) markAnchors() {
 			m.markDirs(l.b, l.p)
 		}
 	}
+}
+
+// belowParentRoot says whether the view is a prefix-mapped view (possibly filtered or stripped on top)
+// whose root is NOT the root of what it maps: the spellings of its own root ("", ".", "a/..") then
+// name the parent's entry called like the prefix, which is outside the view.
+func belowParentRoot(v view) bool {
+	switch x := v.(type) {
+	case *mapView:
+		return x.prefix != "." || belowParentRoot(x.inner)
+	case *filterView:
+		return belowParentRoot(x.inner)
+	case *stripView:
+		return belowParentRoot(x.inner)
+	}
+	return false
+}
+
+// rootAccepted reports a single-object operation that accepted a spelling of the view's root.
+func (m *sim) rootAccepted(v view, oracle, site, op, p string) {
+	if belowParentRoot(v) {
+		m.violate("escape-rejected", op+"|view-root", "%s(%q) on %s names the view's own root - the parent's entry called like the prefix, which is not inside the view - but returned no error", op, p, v.label())
+	}
+	m.violate(oracle, site, "%s(%q) (the root) on %s returned no error", op, p, v.label())
+}
+
+// extOf is the extension of a normal path: from the last dot of its last element on, "" without a dot.
+func extOf(p string) string {
+	base := p[strings.LastIndex(p, "/")+1:]
+	if i := strings.LastIndex(base, "."); i >= 0 {
+		return base[i:]
+	}
+	return ""
 }
 
 func sameRoots(a, b view) bool {
@@ -787,7 +848,7 @@ func (m *sim) stepGetOpen(v view) {
 	case norm == ".":
 		if err == nil {
 			_ = roc.Close()
-			m.violate("get-matches-model", site, "Get(%q) (the root) on %s succeeded", p, v.label())
+			m.rootAccepted(v, "get-matches-model", site, "Get", p)
 		}
 	case dup[norm]:
 		if err == nil {
@@ -882,7 +943,7 @@ func (m *sim) stepStat(v view) {
 	switch {
 	case norm == ".":
 		if err == nil {
-			m.violate("stat-matches-model", "stat", "Stat(%q) (the root) on %s succeeded", p, v.label())
+			m.rootAccepted(v, "stat-matches-model", "stat", "Stat", p)
 		}
 	case dup[norm]:
 		mv, isMulti := v.(*multiView)
@@ -1049,7 +1110,7 @@ func (m *sim) stepPutOpen(v view) {
 			if esc {
 				m.violate("escape-rejected", "put", "Put(%q) on %s escapes the root but returned no error", p, v.label())
 			} else {
-				m.violate("put-matches-model", "put", "Put(%q) (the root) on %s returned no error", p, v.label())
+				m.rootAccepted(v, "put-matches-model", "put", "Put", p)
 			}
 		}
 		return
@@ -1137,6 +1198,11 @@ func (m *sim) stepDelete(v view) {
 		if m.busy(b) || m.blocked(v, norm, false) || b.links[bp] {
 			return
 		}
+		if b.linkedDir != "" && bp == b.linkedDir {
+			// (Delete of the path of a directory LINK removes the link, and with it every object below:
+			// a path that is a proper prefix of object paths is outside the prefix-free domain)
+			return
+		}
 	}
 	err := v.wb().Delete(m.ctx, p)
 	m.s.Event("delete %s %q -> %s", v.label(), p, classify(err))
@@ -1148,7 +1214,7 @@ func (m *sim) stepDelete(v view) {
 			if esc {
 				m.violate("escape-rejected", "delete", "Delete(%q) on %s escapes the root but returned no error", p, v.label())
 			} else {
-				m.violate("delete-matches-model", "delete", "Delete(%q) (the root) on %s returned no error", p, v.label())
+				m.rootAccepted(v, "delete-matches-model", "delete", "Delete", p)
 			}
 		}
 		return
@@ -2004,6 +2070,22 @@ func (m *sim) stepPutThroughDirLink() {
 		m.violate("escape-rejected", "put-through-dir-link", "Put(\"dl/created.txt\") on %s, where dl is a link to a directory outside the root, returned no error", b.name)
 	}
 	m.s.Probe("put-through-dir-link")
+	// and nothing can be listed "in" it: a walk whose prefix names the link itself (in any spelling, or as the
+	// root of a prefix-mapped view) visits nothing - what the link leads to is outside the root
+	prefix := tape.Pick(m.tp, "dirlink-prefix", []string{"dl", "./dl/", "a/../dl", "dl/.", ""})
+	var rb storage.ReadBucket = b.bucket
+	if prefix == "" {
+		rb = storage.MapReadBucket(b.bucket, storage.MapOnPrefix("dl"))
+	}
+	var seen []string
+	werr := rb.Walk(m.ctx, prefix, func(info storage.ObjectInfo) error {
+		seen = append(seen, info.Path())
+		return nil
+	})
+	m.s.Event("walk of the dir link on %s prefix %q -> %d objects, %s", b.name, prefix, len(seen), classify(werr))
+	if len(seen) > 0 {
+		m.violate("nothing-outside-root-read", "walk|dir-link", "Walk(%q) on %s (mapped on \"dl\": %v), where dl is a link to a directory outside the root of a bucket that does not follow links, visited %v", prefix, b.name, prefix == "", seen)
+	}
 }
 
 // stepConfigDirs: directories supplied by configuration files (workspace directories, module
@@ -2190,7 +2272,21 @@ func (m *sim) actual(b *base) (map[string]string, error) {
 			return map[string]string{}, nil
 		}
 	}
-	return simfs.DirState(b.dir)
+	st, err := simfs.DirState(b.dir)
+	if err != nil || b.linkedDir == "" {
+		return st, err
+	}
+	// what the link leads to, as long as the link is there (DeleteAll of the directory removes the link)
+	if fi, lerr := os.Lstat(filepath.Join(b.dir, b.linkedDir)); lerr == nil && fi.Mode()&os.ModeSymlink != 0 {
+		behind, err := simfs.DirState(b.linkTarget)
+		if err != nil {
+			return nil, err
+		}
+		for k, c := range behind {
+			st[b.linkedDir+"/"+k] = c
+		}
+	}
+	return st, nil
 }
 
 func diff(want, got map[string]string) string {
@@ -2258,7 +2354,8 @@ func (m *sim) outside() map[string]string {
 	st, _ := simfs.DirState(m.root)
 	out := map[string]string{}
 	for k, c := range st {
-		inside := false
+		// (what a followed link leads to belongs to the bucket that follows it)
+		inside := strings.HasPrefix(k, "linktargets/")
 		for _, b := range m.bases {
 			if b.dir != "" {
 				rel, _ := filepath.Rel(m.root, b.dir)
